@@ -251,16 +251,18 @@ def expected : List Entry := [
     .startupOnly schemeOnly⟩,
   ⟨"internal/controllers/objectsets/adapter_objectsetphase.go", "newGenericObjectSetPhase", "panic", 1,
     .startupOnly schemeOnly⟩,
+  ⟨"internal/controllers/objectsets/objectsetphases_reconciler.go", "objectSetPhasesReconciler.reconcile", "slice", 1,
+    .guarded "phases[i+1:] with i an index of `range phases`: i + 1 ≤ len(phases) (fix C09-a)"⟩,
   ⟨"internal/controllers/objectsets/objectsetphases_reconciler.go", "reverse", "index", 4,
     .guarded "two-pointer loop `for i, j := 0, len(s)-1; i < j` keeps 0 <= i < j < len(s)"⟩,
   ⟨"internal/controllers/objectsets/objectsliceload_reconciler.go", "objectSliceLoadReconciler.Reconcile", "index", 1,
     .guarded rangeIdx⟩,
   ⟨"internal/controllers/objectsets/remotephase_reconciler.go", "addRemoteObjectSetPhase", "index", 2,
     .guarded rangeIdx⟩,
-  ⟨"internal/controllers/objectsets/remotephase_reconciler.go", "objectSetRemotePhaseReconciler.Reconcile", "panic", 1,
-    .guarded "json.Marshal of a literal map[string]any holding one string and one bool cannot fail"⟩,
   ⟨"internal/controllers/objectsets/remotephase_reconciler.go", "objectSetRemotePhaseReconciler.desiredObjectSetPhase", "mapsink", 2,
     .guarded setterStores⟩,
+  ⟨"internal/controllers/objectsets/remotephase_reconciler.go", "objectSetRemotePhaseReconciler.setPaused", "panic", 1,
+    .guarded "json.Marshal of a literal map[string]any holding one string and one bool cannot fail"⟩,
   ⟨"internal/controllers/objecttemplate/template_reconciler.go", "RelaxedJSONPathExpression", "index", 3,
     .modelled "Pko.Model.Panic.relaxedFrom (submatches[1] twice, submatches[2]; behind len(submatches) != 3)"⟩,
   ⟨"internal/controllers/objecttemplate/template_reconciler.go", "copySourceItem", "index", 1,
